@@ -254,6 +254,86 @@ def deref_cases(rng, n):
     return out[:n]
 
 
+# dereference expressions: ("l", int) | ("v", i) | ("e", a, ix)
+def aexp_src(e):
+    if e[0] == "l":
+        return str(e[1])
+    if e[0] == "v":
+        return "s%d" % e[1]
+    return "a%d[%s]" % (e[1], aexp_src(e[2]))
+
+
+def aexp_wire(e):
+    if e[0] == "l":
+        return "l%d" % e[1]
+    if e[0] == "v":
+        return "v%d" % e[1]
+    return "e%d,%s" % (e[1], aexp_wire(e[2]))
+
+
+def aderef_script(expr, scalars, arrays, use):
+    """assignments of the (possibly cyclic) environment followed by `use % expression`"""
+    s = "".join("s%d='%s'; " % (i, aexp_src(x)) for i, x in enumerate(scalars))
+    s += "".join("a%d=(%s); " % (j, " ".join("'%s'" % aexp_src(x) for x in arr)) for j, arr in enumerate(arrays))
+    return s + (use % aexp_src(expr))
+
+
+def _rand_aexp(rng, ns, na, d=0):
+    k = rng.randrange(10)
+    if k < 3 or (d >= 2 and k < 6):
+        return ("l", rng.randrange(0, 4))
+    if k < 6 or na == 0:
+        return ("v", rng.randrange(0, ns + 1))
+    return ("e", rng.randrange(0, na), _rand_aexp(rng, ns, na, d + 1))
+
+
+def aderef_cases(rng, n):
+    out = []
+    # the cycle through a subscript (seeded change C01/2), and its relatives
+    out.append((("e", 0, ("v", 0)), [("e", 0, ("v", 0))], [[("l", 1), ("l", 2), ("l", 0)]]))
+    out.append((("v", 0), [("e", 0, ("v", 0))], [[("l", 1), ("l", 2), ("l", 0)]]))
+    out.append((("e", 0, ("l", 0)), [], [[("e", 0, ("l", 0))]]))                       # a0[0] = 'a0[0]'
+    out.append((("e", 0, ("l", 0)), [], [[("e", 0, ("l", 1)), ("e", 0, ("l", 0))]]))   # two elements pointing at each other
+    out.append((("v", 0), [("e", 0, ("v", 1)), ("l", 0)], [[("v", 0)]]))               # cycle through the element VALUE
+    out.append((("e", 0, ("e", 0, ("v", 0))), [("e", 0, ("e", 0, ("v", 0)))], [[("l", 0)]]))   # subscript of a subscript
+    out.append((("v", 0), [("e", 0, ("v", 1)), ("l", 2)], [[("l", 7), ("l", 8), ("v", 1)]]))   # finite chain -> 2
+    out.append((("e", 1, ("e", 0, ("l", 1))), [], [[("l", 0), ("l", 2)], [("l", 5), ("l", 6), ("l", 9)]]))
+    # long finite chains through subscripts (depth close to the limit must still evaluate)
+    for ln in (10, 300, 500):
+        sc = [("e", 0, ("v", k + 1)) for k in range(ln)] + [("l", 0)]
+        out.append((("v", 0), sc, [[("l", 3)]]))
+    while len(out) < n:
+        ns, na = rng.randrange(1, 4), rng.randrange(0, 3)
+        scalars = [_rand_aexp(rng, ns, na) for _ in range(ns)]
+        arrays = [[_rand_aexp(rng, ns, na, 1) for _ in range(rng.randrange(1, 4))] for _ in range(na)]
+        out.append((_rand_aexp(rng, ns, na), scalars, arrays))
+    return out[:n]
+
+
+# every arithmetic context fed with (cyclic) dereference environments
+ARITH_CONTEXTS = ["echo $(( %s ))", "(( %s )); echo $?", "let '%s'; echo $?", "[[ %s -eq 0 ]]; echo $?", "[[ 0 -lt %s ]]; echo $?",
+                  "s=abcdef; echo ${s:%s}", "s=abcdef; echo ${s:0:%s}", "s=abcdef; echo ${s:%s:1}", "z=(p q r); echo ${z[%s]}",
+                  "z=(); z[%s]=1; echo ${#z[@]}", "for ((k=%s; k<1; k++)); do :; done; echo $?", "echo $[ %s ]",
+                  "declare -i q; q='%s'; echo $q", "z=(p q r); echo ${z[@]:%s:1}", "echo $(( %s ? 1 : 2 ))", "echo $(( x = %s ))",
+                  "z=(1 2); (( z[%s]++ )); echo $?", "echo $(( 1 + -%s ))"]
+
+
+def cycle_scripts(rng, n):
+    out = []
+    envs = aderef_cases(rng, 40)
+    cyc = envs[:6]
+    for (expr, scalars, arrays) in cyc:
+        for use in ARITH_CONTEXTS:
+            out.append(aderef_script(expr, scalars, arrays, use))
+    out += ["x=x; echo $((x))", "a=b; b=a; echo $((a))", "x='x+1'; echo $((x))", "x='y[x]'; y=(0); echo $((x))",
+            "next=(1 2 0); i='next[i]'; echo $(( next[i] ))", "i='next[i]'; next=(1 2 0); s=abc; echo ${s:next[i]}",
+            "declare -A m; m[k]='m[k]'; echo $(( m[k] ))", "i='j[i]'; echo $(( i ))"]
+    while len(out) < n:
+        (expr, scalars, arrays) = pick(rng, envs)
+        out.append(aderef_script(expr, scalars, arrays, pick(rng, ARITH_CONTEXTS)))
+    return out[:max(n, len(cyc) * len(ARITH_CONTEXTS) + 8)]
+
+
 # ------------------------------------------------------------------ grammar-directed scripts
 
 NUMS = ["0", "1", "-1", "2", "7", "255", str(U32 - 1), str(U32), str(U32 + 1), str(I64MAX), str(I64MAX - 1), str(I64MIN + 1), str(I64MIN),
@@ -610,6 +690,7 @@ WITNESSES = [
     "case x in x) " * 24 + "case x x) " + "echo x " + ";; esac " * 25,
     "echo " + "{a," * 30 + "b" + "}" * 12,
     "echo {1..9223372036854775807}; echo after",
+    " ( " * 32,
 ]
 WITNESSES_PROC = ["(( 08 )) &\nwait\nwait", "echo ${x:?} &\nwait\nwait; echo $?", "cat <<'' "]
 
@@ -630,7 +711,10 @@ def scripts(rng, scale):
             inproc.append((s, pick(rng, ["", "", "", "interactive", "posix", "sh"])))
     for s in WITNESSES:
         inproc.append((s, "interactive,noenv" if "history" in s else ""))
-    procs += WITNESSES + WITNESSES_PROC
+    cyc = cycle_scripts(rng, 150 * scale)
+    for s in cyc:
+        inproc.append((s, ""))
+    procs += WITNESSES + WITNESSES_PROC + cyc[:60]
     muts = 0
     while muts < 900 * scale:
         s = mutate(rng, pick(rng, base))
